@@ -41,7 +41,7 @@ Theorem C18_singleton_value : forall d v, wf_fd d ->
   (fd_singleton_value d = Some v <-> forall z, mem d z <-> z = v).
 Proof. exact singleton_value_spec. Qed.
 
-Theorem C18_copy_before : forall p d, wf_fd d -> copy_guard d ->
+Theorem C18_copy_before : forall p d, wf_fd d ->
   res_spec (fd_copy_before p d)
            (fun z => mem d z /\ forall y, mem d y -> y <= z -> p y = false).
 Proof. exact copy_before_spec. Qed.
@@ -69,7 +69,7 @@ Proof. exact from_vec_spec. Qed.
 
 (* non-vacuity: both representations have well-formed inhabitants meeting every guard *)
 Example C18_nonvacuous :
-  wf_fd (Interval (-3) 4) /\ copy_guard (Interval (-3) 4) /\ wf_fd (Sparse [-2; 0; 5]) /\
+  wf_fd (Interval (-3) 4) /\ wf_fd (Sparse [-2; 0; 5]) /\
   fd_intersect (Interval (-3) 4) (Sparse [-2; 0; 5]) = Some (Sparse [-2; 0]) /\
   fd_from_vec [3; 1; 3; 2] = Some (Sparse [1; 2; 3]).
 Proof.
@@ -80,7 +80,8 @@ Qed.
 (* What the theorems above exclude, as machine-checked witnesses.
    (a) the subset test that the pinned tree used for == is not set equality;
    (b) sorting without dedup breaks well-formedness;
-   (c) copy_before saturates at isize::MIN (outside [copy_guard]). *)
+   (c) the pinned copy_before saturated at isize::MIN (all four repaired by fix: commits in /repo;
+       the pinned is_singleton overflowed in the Rust subtraction itself, which Z does not exhibit). *)
 Example C18_eq_subset_refuted :
   fd_eqb_subset (Interval 1 3) (Interval 1 5) = true /\ ~ (forall z, mem (Interval 1 3) z <-> mem (Interval 1 5) z).
 Proof. split; [reflexivity|]. intros H. specialize (H 5). cbn in H. lia. Qed.
@@ -92,12 +93,15 @@ Proof.
   inversion H as [|? ? _ H']; subst. inversion H' as [|? ? H'' _]; subst. lia.
 Qed.
 
-Example C18_copy_before_min_outside_guard :
-  fd_copy_before (fun _ => true) (Interval isize_min (isize_min + 2)) = Some (Interval isize_min isize_min).
-Proof. vm_compute. reflexivity. Qed.
+Example C18_copy_before_pinned_refuted :
+  fd_copy_before_pinned (fun _ => true) (Interval isize_min (isize_min + 2)) = Some (Interval isize_min isize_min) /\
+  fd_copy_before (fun _ => true) (Interval isize_min (isize_min + 2)) = None.
+Proof. vm_compute. split; reflexivity. Qed.
 
 Check C18_intersect : forall a b, wf_fd a -> wf_fd b -> res_spec (fd_intersect a b) (fun z => mem a z /\ mem b z).
 Check C18_diff : forall a b, wf_fd a -> wf_fd b -> res_spec (fd_diff a b) (fun z => mem a z /\ ~ mem b z).
+Check C18_copy_before : forall p d, wf_fd d -> res_spec (fd_copy_before p d) (fun z => mem d z /\ forall y, mem d y -> y <= z -> p y = false).
+Check C18_is_singleton : forall d, wf_fd d -> (fd_is_singleton d = true <-> exists v, forall z, mem d z <-> z = v).
 Check C18_eq : forall a b, wf_fd a -> wf_fd b -> (fd_eqb a b = true <-> forall z, mem a z <-> mem b z).
 Print Assumptions C18_intersect.
 Print Assumptions C18_diff.
